@@ -512,3 +512,100 @@ func GenTypedMap(c *simkit.Choices, kind string, n int, o OpsOpts) interface{} {
 	}
 	panic("model: unknown typed map kind " + kind)
 }
+
+// ---- well-formed mutations of a basic event stream ---------------------------
+
+// subtreeEnd returns the index one past the value starting at evs[i].
+func subtreeEnd(evs []simkit.Ev, i int) int {
+	depth := 0
+	for j := i; j < len(evs); j++ {
+		switch evs[j].K {
+		case simkit.KArrStart, simkit.KObjStart:
+			depth++
+		case simkit.KArrEnd, simkit.KObjEnd:
+			depth--
+		}
+		if depth == 0 {
+			return j + 1
+		}
+	}
+	return len(evs)
+}
+
+// valueStarts lists the indices at which a value (not a key, not an end) begins.
+func valueStarts(evs []simkit.Ev) []int {
+	var out []int
+	for i, e := range evs {
+		switch e.K {
+		case simkit.KKey, simkit.KArrEnd, simkit.KObjEnd:
+		default:
+			out = append(out, i)
+		}
+	}
+	return out
+}
+
+// MutateStream replaces value subtrees of a well-formed stream by values of
+// another shape (null, scalar, empty or small container, a copy of another
+// subtree) and rotates the members of objects. The result is again a
+// well-formed stream; announced lengths of touched containers become unknown.
+func MutateStream(c *simkit.Choices, evs []simkit.Ev, n int) []simkit.Ev {
+	out := append([]simkit.Ev{}, evs...)
+	for k := 0; k < n; k++ {
+		starts := valueStarts(out)
+		if len(starts) == 0 {
+			return out
+		}
+		i := starts[c.N(len(starts))]
+		end := subtreeEnd(out, i)
+		var repl []simkit.Ev
+		switch c.N(9) {
+		case 0, 1:
+			repl = []simkit.Ev{{K: simkit.KNil}}
+		case 2:
+			repl = []simkit.Ev{{K: simkit.KBool, I: int64(c.N(2))}}
+		case 3:
+			repl = []simkit.Ev{{K: simkit.KInt64, I: GenInt(c).Int64()}}
+		case 4:
+			repl = []simkit.Ev{{K: simkit.KStr, S: GenText(c, 12)}}
+		case 5:
+			repl = []simkit.Ev{{K: simkit.KArrStart, I: -1}, {K: simkit.KArrEnd}}
+		case 6:
+			repl = []simkit.Ev{{K: simkit.KObjStart, I: -1}, {K: simkit.KKey, S: GenKey(c, 6)}, {K: simkit.KNil}, {K: simkit.KObjEnd}}
+		case 7: // a copy of another subtree of the same stream
+			j := starts[c.N(len(starts))]
+			repl = append(repl, out[j:subtreeEnd(out, j)]...)
+		default: // rotate the members of the object starting here
+			if out[i].K == simkit.KObjStart {
+				var members [][]simkit.Ev
+				for j := i + 1; j < end-1; {
+					e := subtreeEnd(out, j+1)
+					members = append(members, out[j:e])
+					j = e
+				}
+				if len(members) > 1 {
+					r := 1 + c.N(len(members)-1)
+					repl = append(repl, out[i])
+					for m := range members {
+						repl = append(repl, members[(m+r)%len(members)]...)
+					}
+					repl = append(repl, out[end-1])
+				}
+			}
+			if repl == nil {
+				repl = []simkit.Ev{{K: simkit.KNil}}
+			}
+		}
+		next := append([]simkit.Ev{}, out[:i]...)
+		next = append(next, repl...)
+		next = append(next, out[end:]...)
+		out = next
+	}
+	// lengths announced by enclosing containers may no longer be truthful
+	for i := range out {
+		if out[i].K == simkit.KArrStart || out[i].K == simkit.KObjStart {
+			out[i].I, out[i].T = -1, 0
+		}
+	}
+	return out
+}
